@@ -297,6 +297,17 @@ theorem C02_bytes (p : Policy) (hp : PlainC p.ensureInit) (input : Bytes) :
   obtain ⟨t, ht, aps, hd, hr, hs⟩ := reread_open_tagC p hp input k hk htt hne
   exact ⟨t, ht, aps, hd, hr, C02_sanitizeAttrs p.ensureInit k.data t.attrs aps k.attrs hs b hb⟩
 
+/-- (per-input form)  **C02 (byte level, plain policies)**: every attribute on every start or self-closing tag an
+    HTML tokenizer reads from the returned bytes is `Kept` for an input tag of that element. -/
+theorem C02_bytes_on (p : Policy) (input : Bytes) (hp : PlainOn p.ensureInit (tokenize input)) :
+    ∀ k ∈ tokenize (p.sanitizeCore input), (k.tt = .start ∨ k.tt = .selfClosing) →
+      ∀ b ∈ k.attrs, ∃ t ∈ tokenize input, ∃ aps, t.data = k.data ∧
+        p.ensureInit.attrRulesFor k.data = some aps ∧ Kept p.ensureInit k.data aps t.attrs b := by
+  intro k hk htt b hb
+  have hne : k.attrs ≠ [] := by intro h; rw [h] at hb; simp at hb
+  obtain ⟨t, ht, aps, hd, hr, hs⟩ := reread_open_tagOn p input hp k hk htt hne
+  exact ⟨t, ht, aps, hd, hr, C02_sanitizeAttrs p.ensureInit k.data t.attrs aps k.attrs hs b hb⟩
+
 /-- non-vacuity: two overlapping rules, the value matches only the second -/
 example :
     let digits : Pat := ⟨1, fun v => v.all isDigit && !v.isEmpty⟩
